@@ -58,6 +58,7 @@ fn eval<T: DataType + PartialEq<str> + for<'a> PartialEq<&'a str> + PartialEq<f6
         "as_i64" => v.as_i64().map_or("none".into(), |i| format!("i:{}", i)),
         "as_f64" => v.as_f64().map_or("none".into(), fnum),
         "as_string" => v.as_string().map_or("none".into(), |s| format!("s:{}", s)),
+        "display" => "n/a".into(),
         "eq" if arg == "s:12" => streq("12"),
         "eq" if arg == "s:x" => streq("x"),
         "eq" => b(match arg {
@@ -98,7 +99,11 @@ pub fn replay(args: &Args) -> i32 {
                     Data::DurationIso(s) => DataRef::DurationIso(s), Data::Error(e) => DataRef::Error(e),
                 },
             };
-            if op == "owned" {
+            if op == "display" {
+                // Display exists for the owned value only
+                if let Some(d) = &owned { got.push(("Data".into(), format!("s:{}", d))); }
+                else { got.push(("Data".into(), format!("s:{}", Data::from(dref)))); }
+            } else if op == "owned" {
                 got.push(("DataRef->Data".into(), code_of(&Data::from(dref))));
             } else {
                 if let Some(d) = &owned { got.push(("Data".into(), eval(d, op, arg))); }
